@@ -10,7 +10,9 @@ import traceback
 from . import tlc
 
 VERIF = tlc.VERIF
-EVIDENCE_DIR = os.path.join(VERIF, "evidence")
+# runs of the checks against a scratch worktree with a seeded change (tools/seed_mutant.py) write their evidence elsewhere, so
+# that /verif/evidence always describes runs against /repo itself
+EVIDENCE_DIR = os.environ.get("VERIF_EVIDENCE_DIR") or os.path.join(VERIF, "evidence")
 REPLAY_DIR = os.path.join(VERIF, "replays")
 FINDINGS_FILE = os.path.join(VERIF, "known_findings.json")
 
